@@ -19,6 +19,11 @@ CHECKS = {
          "TLC checks Consistent/QueryComplete/QuerySound over all bounded operation histories (3 atoms on positions straddling cell borders, sizes 2 and 5) and the covering lemma on a coordinate grid; simulated histories and the grid are executed on the real class and each recorded add/remove/query event is validated against the spec's actions; in traced pipeline runs TLC tracks every atom's position/cell from wrapper events and judges each real query against brute force.",
          "Wrappers on Cells methods, Atom.__setattr__ and Residue.add/remove_atom are harness code; coordinates truncated to 0.001 A with a 0.003 A margin; pipeline traces cover the repository's PDB files only; cell-map maintenance defects of the hydrogen-optimisation classes are listed as known findings by call site.",
          "DESIGN.md 6/C14", ["Cells", "MC_Cells", "CellsTrace"]),
+ "C18": ("model_checking",
+         "TLA+ spec Dx2Cube (reader/writer as line-by-line actions): TLC exhaustive over all grid shapes in the bound; every shape converted by the real read_pqr/read_dx/write_cube (and the dx2cube entry point); TLC trace validation (Dx2CubeTrace) of the parsed cubes",
+         "The space in the bound (all nx,ny,nz <= MaxN, DX row lengths 1-3, 0-2 atoms, trailer on/off) is enumerated completely by TLC; each case is realised as files, converted by the real code (many conversions per process), parsed by an independent cube reader and judged by TLC against the spec's cube and the C18 clauses.",
+         "Generated DX files follow APBS's layout; values compared at the printed 5 significant digits; file rendering and the cube parser are harness code.",
+         "DESIGN.md 6/C18", ["Dx2Cube", "Dx2CubeTrace"]),
 }
 
 NOT_YET = "check not built yet (build round in progress); planned per DESIGN.md section 6"
